@@ -1,7 +1,10 @@
 import RV.Proofs.Rotation
 import RV.Proofs.RotationAxes
+import RV.Proofs.RotationSlerp
 import RV.Proofs.Frame
 import RV.Proofs.Units
+import RV.Proofs.UnitsState
+import RV.Gen.C20UnitsFns
 import Mathlib.Analysis.Real.Sqrt
 import Mathlib.Analysis.SpecialFunctions.Trigonometric.Inverse
 /-
@@ -26,7 +29,7 @@ set_option linter.unusedSimpArgs false
 set_option linter.unusedSectionVars false
 
 namespace RV.C20
-open RV RV.Units RV.Rot RV.Frame RV.Gen.C20
+open RV RV.Units RV.Rot RV.Frame RV.Gen.C20 RV.Gen.C20Fns RV.UnitsState
 
 /-! ## 1. units: algebra (any field, hence every unit triple) -/
 section
@@ -161,6 +164,156 @@ theorem c20_units_G_one :
   decide +kernel
 
 
+/-! ## 2b. the conversion functions of rebound/units.py, translated from their source text on every run
+    (RV/Gen/C20UnitsFns.lean), and the unit logic of rebound/simulation.py as a state machine -/
+
+/-- the translator understood all six functions -/
+theorem c20_units_functions_extracted :
+    fnParseErrors = 0 ∧ fnTranslated = ["convert_mass", "convert_length", "convert_vel", "convert_acc",
+      "convert_G", "units_convert_particle"] := by
+  decide
+
+section
+variable {K : Type} [ScalarP K]
+/-- the translated source *is* the model that `drv_c20` runs against the Python functions (for every
+    scalar type, in particular IEEE doubles): statement-by-statement translation and hand-written
+    model are definitionally equal.  A change of a formula in units.py breaks this theorem. -/
+theorem c20_units_functions_are_the_model :
+    (∀ x a b : K, genConvertMass x a b = convertMass x a b) ∧
+    (∀ x a b : K, genConvertLength x a b = convertLength x a b) ∧
+    (∀ x a b c d : K, genConvertVel x a b c d = convertVel x a b c d) ∧
+    (∀ x a b c d : K, genConvertAcc x a b c d = convertAcc x a b c d) ∧
+    (∀ g l t m : K, genConvertG g l t m = convertG g l t m) ∧
+    (∀ (p : PData K) (a b c d e f : K), genConvertParticle p a b c d e f = convertParticle p a b c d e f) :=
+  ⟨fun _ _ _ => rfl, fun _ _ _ => rfl, fun _ _ _ _ _ => rfl, fun _ _ _ _ _ => rfl, fun _ _ _ _ => rfl,
+   fun _ _ _ _ _ _ _ => rfl⟩
+end
+
+section
+variable {K : Type} [Field K]
+
+/-- the monomial `L^a T^b M^c` with the dimension exponents `(a, b, c)` as data -/
+def mono (e : ℤ × ℤ × ℤ) (rL rT rM : K) : K := rL ^ e.1 * rT ^ e.2.1 * rM ^ e.2.2
+
+/-- dimension exponents (length, time, mass) of the particle fields `units_convert_particle` converts -/
+def dimMass : ℤ × ℤ × ℤ := (0, 0, 1)
+def dimLength : ℤ × ℤ × ℤ := (1, 0, 0)
+def dimVel : ℤ × ℤ × ℤ := (1, -1, 0)
+def dimAcc : ℤ × ℤ × ℤ := (1, -2, 0)
+/-- G has dimension L³ T⁻² M⁻¹, so its numerical value scales with the *inverse* monomial of the units -/
+def dimGinv : ℤ × ℤ × ℤ := (-3, 2, 1)
+
+/-- each translated conversion function multiplies by the monomial of the unit ratios
+    `old/new` with the exponents of its physical dimension; `convert_G` is `G_SI · L⁻³ T² M` -/
+theorem c20_convert_is_monomial (x g L T M L' T' M' : K)
+    (hL : L ≠ 0) (hT : T ≠ 0) (hM : M ≠ 0) (hL' : L' ≠ 0) (hT' : T' ≠ 0) (hM' : M' ≠ 0) :
+    genConvertMass x M M' = x * mono dimMass (L / L') (T / T') (M / M') ∧
+    genConvertLength x L L' = x * mono dimLength (L / L') (T / T') (M / M') ∧
+    genConvertVel x L T L' T' = x * mono dimVel (L / L') (T / T') (M / M') ∧
+    genConvertAcc x L T L' T' = x * mono dimAcc (L / L') (T / T') (M / M') ∧
+    genConvertG g L T M = g * mono dimGinv L T M := by
+  refine ⟨?_, ?_, ?_, ?_, ?_⟩ <;>
+    simp only [genConvertMass, genConvertLength, genConvertVel, genConvertAcc, genConvertG, mono, dimMass,
+      dimLength, dimVel, dimAcc, dimGinv, p_powi, sc_hmul, sc_hdiv, zpow_neg, zpow_ofNat, zpow_one, zpow_zero] <;>
+    field_simp
+
+/-- `units_convert_particle` converts every field with the exponents of its dimension:
+    m ↦ M;  x, y, z, r ↦ L;  vx, vy, vz ↦ L T⁻¹;  ax, ay, az ↦ L T⁻² -/
+theorem c20_convert_particle_dimensions (p : PData K) (L T M L' T' M' : K)
+    (hL : L ≠ 0) (hT : T ≠ 0) (hM : M ≠ 0) (hL' : L' ≠ 0) (hT' : T' ≠ 0) (hM' : M' ≠ 0) :
+    genConvertParticle p L T M L' T' M' =
+      { m := p.m * mono dimMass (L / L') (T / T') (M / M'),
+        x := p.x * mono dimLength (L / L') (T / T') (M / M'),
+        y := p.y * mono dimLength (L / L') (T / T') (M / M'),
+        z := p.z * mono dimLength (L / L') (T / T') (M / M'),
+        r := p.r * mono dimLength (L / L') (T / T') (M / M'),
+        vx := p.vx * mono dimVel (L / L') (T / T') (M / M'),
+        vy := p.vy * mono dimVel (L / L') (T / T') (M / M'),
+        vz := p.vz * mono dimVel (L / L') (T / T') (M / M'),
+        ax := p.ax * mono dimAcc (L / L') (T / T') (M / M'),
+        ay := p.ay * mono dimAcc (L / L') (T / T') (M / M'),
+        az := p.az * mono dimAcc (L / L') (T / T') (M / M') } := by
+  simp only [genConvertParticle]
+  congr 1 <;> first
+    | exact (c20_convert_is_monomial _ 0 L T M L' T' M' hL hT hM hL' hT' hM').1
+    | exact (c20_convert_is_monomial _ 0 L T M L' T' M' hL hT hM hL' hT' hM').2.1
+    | exact (c20_convert_is_monomial _ 0 L T M L' T' M' hL hT hM hL' hT' hM').2.2.1
+    | exact (c20_convert_is_monomial _ 0 L T M L' T' M' hL hT hM hL' hT' hM').2.2.2.1
+
+/-! ### state machine of `Simulation.units`, `update_units`, `convert_particle_units`, `sim.G = …` -/
+
+/-- setting units on an empty simulation always succeeds, stores the names, makes `G = convert_G`;
+    doing it twice changes nothing; on a populated simulation it is refused; rejected unit tuples
+    (`check_units` raises) change nothing -/
+theorem c20_units_setter (gSI : K) (s : USim K) (u : UnitSys K) :
+    (s.parts = [] →
+      step gSI s (.setUnits (some u)) = .ok (updateUnits gSI s u) ∧
+      step gSI (updateUnits gSI s u) (.setUnits (some u)) = .ok (updateUnits gSI s u) ∧
+      (updateUnits gSI s u).units = some u ∧ Follows gSI (updateUnits gSI s u)) ∧
+    (s.parts ≠ [] → step gSI s (.setUnits (some u)) = .error .populated) ∧
+    step gSI s (.setUnits none) = .error .badUnits ∧
+    (run gSI s [.setUnits none]).1 = s := by
+  refine ⟨fun h => ⟨step_setUnits_ok gSI s u h, ?_, rfl, ?_⟩, fun h => ?_, rfl, rfl⟩
+  · rw [step_setUnits_ok gSI _ u (by simpa [updateUnits] using h)]
+    simp [updateUnits]
+  · intro v hv
+    simp only [updateUnits, Option.some.injEq] at hv
+    subst hv; rfl
+  · have : s.parts.length > 0 := List.length_pos_iff.mpr h
+    simp [step, this]
+
+/-- `G` follows the units: after a successful `convert_particle_units` the stored `G` is `convert_G` of
+    the new units whatever it was before (a manually assigned `sim.G` is overwritten), the names are the
+    new ones; without units it is refused -/
+theorem c20_units_G_follows (gSI g : K) (s s1 : USim K) (u : UnitSys K) :
+    (step gSI s (.convert (some u)) = .ok s1 → s1.units = some u ∧ Follows gSI s1) ∧
+    (∀ s2, step gSI s (.setG g) = .ok s2 → step gSI s2 (.convert (some u)) = .ok s1 →
+        s1.G = convertG gSI u.L u.T u.M) ∧
+    (s.units = none → step gSI s (.convert (some u)) = .error .unitsNotSet) := by
+  refine ⟨fun h => ?_, fun s2 h2 h => ?_, fun h => by simp [step, h]⟩
+  · cases hu : s.units with
+    | none => simp [step, hu] at h
+    | some cur =>
+      rw [step_convert_ok gSI s cur u hu] at h
+      cases h
+      refine ⟨rfl, ?_⟩
+      intro v hv
+      simp only [updateUnits, Option.some.injEq] at hv
+      subst hv; rfl
+  · simp only [step, Except.ok.injEq] at h2
+    subst h2
+    cases hu : s.units with
+    | none => simp [step, hu] at h
+    | some cur =>
+      rw [step_convert_ok gSI _ cur u (by simpa using hu)] at h
+      cases h; rfl
+
+/-- converting A → B → A returns every particle, the units and `G = convert_G(A)`; converting to the
+    units already in use changes nothing; A → B → C equals A → C (all unit values non-zero) -/
+theorem c20_units_convert_roundtrip (gSI : K) (s : USim K) (a b c : UnitSys K) (hs : s.units = some a)
+    (ha : a.L ≠ 0 ∧ a.T ≠ 0 ∧ a.M ≠ 0) (hb : b.L ≠ 0 ∧ b.T ≠ 0 ∧ b.M ≠ 0) :
+    (∃ s1 s2, step gSI s (.convert (some b)) = .ok s1 ∧ step gSI s1 (.convert (some a)) = .ok s2 ∧
+        s2.parts = s.parts ∧ s2.units = some a ∧ s2.G = convertG gSI a.L a.T a.M) ∧
+    (∃ s1, step gSI s (.convert (some a)) = .ok s1 ∧ s1.parts = s.parts) ∧
+    (∃ s1 s2 s3, step gSI s (.convert (some b)) = .ok s1 ∧ step gSI s1 (.convert (some c)) = .ok s2 ∧
+        step gSI s (.convert (some c)) = .ok s3 ∧ s2.parts = s3.parts ∧ s2.units = s3.units ∧ s2.G = s3.G) := by
+  refine ⟨⟨_, _, step_convert_ok gSI s a b hs, step_convert_ok gSI _ b a rfl, ?_, rfl, rfl⟩,
+    ⟨_, step_convert_ok gSI s a a hs, ?_⟩,
+    ⟨_, _, _, step_convert_ok gSI s a b hs, step_convert_ok gSI _ b c rfl, step_convert_ok gSI s a c hs, ?_, rfl, rfl⟩⟩
+  · simp only [updateUnits, List.map_map, Function.comp_def]
+    conv_rhs => rw [← List.map_id s.parts]
+    apply List.map_congr_left; intro p _
+    exact convertParticle_rev p _ _ _ _ _ _ hb.1 hb.2.1 hb.2.2 ha.1 ha.2.1 ha.2.2
+  · simp only [updateUnits]
+    conv_rhs => rw [← List.map_id s.parts]
+    apply List.map_congr_left; intro p _
+    exact convertParticle_same p _ _ _ ha.1 ha.2.1 ha.2.2
+  · simp only [updateUnits, List.map_map, Function.comp_def]
+    apply List.map_congr_left; intro p _
+    exact convertParticle_trans p _ _ _ _ _ _ _ _ _ hb.1 hb.2.1 hb.2.2
+
+end
+
 /-! ## 3. quaternion algebra (any field) -/
 section
 variable {K : Type} [Field K]
@@ -215,6 +368,30 @@ theorem c20_mul_inverse (q : Quat K) (h : qlen2 q ≠ 0) :
 theorem c20_rotate_inverse (q : Quat K) (v : V3 K) (h : qlen2 q = 1) :
     rotate v (qid : Quat K) = v ∧ rotate (rotate v q) (inverse q) = v :=
   ⟨rotate_id v, rotate_inverse q v h⟩
+
+/-- specific angular momentum `h = x × v` of a relative orbit -/
+def hvec (x v : V3 K) : V3 K := cross x v
+/-- Laplace–Runge–Lenz / eccentricity vector times μ: `v × h − μ x / r`, with `rinv = 1/|x|` -/
+def lrl (mu rinv : K) (x v : V3 K) : V3 K := vadd (cross v (cross x v)) (vmul x (-(mu * rinv)))
+
+/-- orbital elements are those of the rotated orbit: under a unit quaternion the angular momentum
+    vector and the Laplace (eccentricity) vector of a two-body orbit rotate as vectors, so `|h|`,
+    `e = |lrl|/μ`, the energy terms `|v|²` and `|x|²` (hence `a`), and the inclination measured
+    from the rotated z axis (`h · z`) are unchanged -/
+theorem c20_rotate_orbit_vectors (q : Quat K) (h : qlen2 q = 1) (x v z : V3 K) (mu rinv : K) :
+    hvec (rotate x q) (rotate v q) = rotate (hvec x v) q ∧
+    lrl mu rinv (rotate x q) (rotate v q) = rotate (lrl mu rinv x v) q ∧
+    len2 (rotate x q) = len2 x ∧ len2 (rotate v q) = len2 v ∧
+    len2 (hvec (rotate x q) (rotate v q)) = len2 (hvec x v) ∧
+    len2 (lrl mu rinv (rotate x q) (rotate v q)) = len2 (lrl mu rinv x v) ∧
+    dot (hvec (rotate x q) (rotate v q)) (rotate z q) = dot (hvec x v) z := by
+  have hh : hvec (rotate x q) (rotate v q) = rotate (hvec x v) q := (rotate_cross q x v h).symm
+  have hl : lrl mu rinv (rotate x q) (rotate v q) = rotate (lrl mu rinv x v) q := by
+    simp only [lrl, rotate_add, rotate_smul, rotate_cross q _ _ h]
+  refine ⟨hh, hl, c20_rotate_preserves_dot _ _ q h, c20_rotate_preserves_dot _ _ q h, ?_, ?_, ?_⟩
+  · rw [hh]; exact c20_rotate_preserves_dot _ _ q h
+  · rw [hl]; exact c20_rotate_preserves_dot _ _ q h
+  · rw [hh]; exact c20_rotate_preserves_dot _ _ q h
 
 /-- total angular momentum `Σ m (x × v)` of a particle list -/
 def angMom : List K → List (V3 K × V3 K) → V3 K
@@ -468,6 +645,43 @@ theorem c20_to_new_axes_F18_negation (hs : SqrtSpec K) :
 
 end
 
+/-! ### slerp -/
+section
+variable {K : Type} [Field K] [LinearOrder K] [IsStrictOrderedRing K] [RealFns K]
+
+/-- `reb_rotation_slerp`, general branch (`|q1·q2| < 1`, `|sin θ| ≥ eps`; θ = acos (q1·q2)): for unit
+    `q1`, `q2` the result is a unit quaternion whose 4-d dot products with `q1` and `q2` are
+    `cos (t θ)` and `cos ((1−t) θ)` — it moves along the great circle at constant angular speed.
+    `AddSpec`: addition formulas and sin 0 = 0; `AcosSpec`: cos (acos c) = c, sin (acos c) ≥ 0. -/
+theorem c20_slerp_general (hs : SqrtSpec K) (ht : TrigSpec K) (hadd : AddSpec K) (hac : AcosSpec K)
+    (eps halfc : K) (q1 q2 : Quat K) (t : K) (h1 : qlen2 q1 = 1) (h2 : qlen2 q2 = 1)
+    (heps : 0 < eps) (hc : |qdot q1 q2| < 1)
+    (hgen : eps ≤ |RealFns.sqrt (1 - qdot q1 q2 * qdot q1 q2)|) :
+    qlen2 (slerp eps halfc q1 q2 t) = 1 ∧
+    qdot q1 (slerp eps halfc q1 q2 t) = RealFns.cos (t * RealFns.acos (qdot q1 q2)) ∧
+    qdot q2 (slerp eps halfc q1 q2 t) = RealFns.cos ((1 - t) * RealFns.acos (qdot q1 q2)) :=
+  slerp_general hs ht hadd hac eps halfc q1 q2 t h1 h2 heps hc hgen
+
+/-- end points: `slerp q1 q2 0 = q1`, `slerp q1 q2 1 = q2` (general branch) -/
+theorem c20_slerp_endpoints (hs : SqrtSpec K) (ht : TrigSpec K) (hadd : AddSpec K) (hac : AcosSpec K)
+    (eps halfc : K) (q1 q2 : Quat K) (hc : |qdot q1 q2| < 1)
+    (hgen : eps ≤ |RealFns.sqrt (1 - qdot q1 q2 * qdot q1 q2)|) (heps : 0 < eps) :
+    slerp eps halfc q1 q2 0 = q1 ∧ slerp eps halfc q1 q2 1 = q2 :=
+  slerp_endpoints hs ht hadd hac eps halfc q1 q2 hc hgen heps
+
+/-- the two short-cut branches, exactly: `|q1·q2| ≥ 1` returns `q1` for every `t`; `|sin θ| < eps`
+    (`QUATERNION_EPS = 1e-4`, "enough for visualizations") returns the mean `(q1+q2)/2` for every `t`,
+    of squared norm `(1 + q1·q2)/2` — unit only in the limit `q1·q2 → 1`, and close to the zero
+    quaternion for nearly antipodal inputs.  So "unit result for unit inputs" holds of slerp only
+    with the hypothesis `hgen` of `c20_slerp_general` (documented limitation, not flagged). -/
+theorem c20_slerp_shortcuts (eps : K) (q1 q2 : Quat K) (t : K) (h1 : qlen2 q1 = 1) (h2 : qlen2 q2 = 1) :
+    (1 ≤ |qdot q1 q2| → slerp eps (1 / 2) q1 q2 t = q1) ∧
+    (|qdot q1 q2| < 1 → |RealFns.sqrt (1 - qdot q1 q2 * qdot q1 q2)| < eps →
+      qlen2 (slerp eps (1 / 2) q1 q2 t) = (1 + qdot q1 q2) / 2) :=
+  slerp_degenerate eps q1 q2 t h1 h2
+
+end
+
 /-! ## 5. frame shifts, scaling, adding and subtracting simulations (every N) -/
 section
 variable {K : Type} [Field K] [LinearOrder K] [IsStrictOrderedRing K]
@@ -591,6 +805,42 @@ theorem c20_var2_is_second_derivative (rows : List (Row2 K)) (hM : rows2Mass row
 
 end
 
+section
+variable {K : Type} [Field K] [LinearOrder K]
+
+/-- what a consistent transformation of variational particles under `move_to_hel` is: run the
+    model of `reb_simulation_move_to_hel` itself on dual numbers `(m + ε δm, x + ε δx)`
+    (resp. on `K[εa,εb]/(εa²,εb²)` at second order).  Real parts: the shifted coordinates; ε-parts
+    (εa·εb-parts): the variation of particle 0 subtracted from all others and set to zero —
+    `moveToHelVar true`, which is what fixes/C20-move-to-hel-variations.diff implements. -/
+theorem c20_move_to_hel_variations_repaired_full (rows : List (Row1 K)) (rows2 : List (Row2 K)) :
+    (moveToHel (rows.map dualOf)).map (fun p => p.2.re) = (moveToHel (rows.map (fun r => (r.m, r.x)))).map (·.2) ∧
+    (moveToHel (rows.map dualOf)).map (fun p => p.2.eps) = moveToHelVar true (rows.map (·.dx)) ∧
+    (moveToHel (rows2.map d2Of)).map (fun p => p.2.cab) = moveToHelVar true (rows2.map (·.ddx)) :=
+  ⟨(moveToHel_dual rows).1, (moveToHel_dual rows).2.1, (moveToHel_d2 rows2).2.1⟩
+
+/-- **as found** (`// Note: Variational particles will not be affected.`): variational particles are
+    left alone, which is the derivative only if particle 0 does not vary (hypothesis = the finding
+    `C20:move_to_hel-variations`) … -/
+theorem c20_move_to_hel_variations_partial (dx0 : K) (r : List K) (hfinding : dx0 = 0) :
+    moveToHelVar false (dx0 :: r) = moveToHelVar true (dx0 :: r) := by
+  subst hfinding
+  simp [moveToHelVar]
+
+/-- … and **not** the derivative otherwise: the full statement "frame shifts transform variational
+    particles consistently" is false of `move_to_hel` as found whenever `δx₀ ≠ 0` -/
+theorem c20_move_to_hel_variations_negation (dx0 : K) (r : List K) (h : dx0 ≠ 0) :
+    moveToHelVar false (dx0 :: r) = dx0 :: r ∧
+    moveToHelVar false (dx0 :: r) ≠ moveToHelVar true (dx0 :: r) := by
+  refine ⟨moveToHelVar_asfound _, ?_⟩
+  intro heq
+  have : moveToHelVar false (dx0 :: r) = dx0 :: r := moveToHelVar_asfound _
+  rw [this] at heq
+  simp only [moveToHelVar, if_true, sc_zero, List.cons.injEq] at heq
+  exact h heq.1
+
+end
+
 /-! ## 6. the hypotheses are satisfiable (non-vacuity) -/
 /-- a three-body set with a massless particle in front meets the hypotheses of the COM theorems -/
 example : (∀ p ∈ [((0:ℚ), (5:ℚ)), (1, 2), (1/1000, -7)], 0 ≤ p.1) ∧
@@ -610,6 +860,14 @@ theorem c20_real_trig_spec : TrigSpec ℝ := fun a => by
   show Real.sin a * Real.sin a + Real.cos a * Real.cos a = 1
   have := Real.sin_sq_add_cos_sq a
   nlinarith [this]
+
+theorem c20_real_add_spec : AddSpec ℝ :=
+  ⟨fun a b => Real.sin_add a b, fun a b => Real.cos_add a b, Real.sin_zero⟩
+
+theorem c20_real_acos_spec : AcosSpec ℝ := fun c hc => by
+  have h := abs_le.mp hc
+  exact ⟨Real.cos_arccos h.1 h.2,
+    Real.sin_nonneg_of_nonneg_of_le_pi (Real.arccos_nonneg c) (Real.arccos_le_pi c)⟩
 
 /-- the hypotheses of `c20_from_to_partial` / `c20_angle_axis` are satisfiable (x axis to x axis) -/
 example : len2 (ex : V3 ℝ) ≠ 0 ∧ len2 (vadd (normalize (ex : V3 ℝ)) (normalize (ex : V3 ℝ))) ≠ 0 := by
